@@ -155,7 +155,7 @@ def gen_fixed_layout(rng: random.Random):
         # one-line def
         text = f"def sel({v1}): return {body_for(op1, rng, v1).replace(chr(10), ' ')}\n\ndef build(ds):\n{ind}return ds.{op1}(sel)\n"
         return text, "supported"
-    if r < 0.92:
+    if r < 0.88:
         # another lambda on the same line that is not an operator argument
         kind = rng.choice(["before-semicolon", "in-tuple-call", "default-arg"])
         if kind == "before-semicolon":
@@ -164,6 +164,31 @@ def gen_fixed_layout(rng: random.Random):
             text = f"def build(ds):\n{ind}return (sorted([1], key=lambda {v2}: {v2}), ds.{op1}(lambda {v1}: {body_for(op1, rng, v1)}))[1]\n"
         else:
             text = f"def build(ds, f=lambda {v2}: {v2}):\n{ind}return ds.{op1}(lambda {v1}: {body_for(op1, rng, v1)})\n"
+        return text, "any"
+    if r < 0.945:
+        # several operator calls side by side on one line (tuple / list / dict / keyword arguments), reached through a
+        # short alias of the dataset (d, a, b, l, m, la ...): told apart by method or argument names -> supported;
+        # same method and same argument names -> must raise, never record the neighbour
+        alias = rng.choice(["d", "a", "b", "l", "m", "la", "da", "am", "data", "src2"])
+        same = rng.random() < 0.25
+        o2 = op1 if same or rng.random() < 0.5 else op2
+        w2 = v1 if same or (o2 != op1 and rng.random() < 0.5) else v2
+        c1 = f"ds.{op1}(lambda {v1}: {body_for(op1, rng, v1).replace(chr(10), ' ')})"
+        c2 = f"{alias}.{o2}(lambda {w2}: {body_for(o2, rng, w2).replace(chr(10), ' ')})"
+        shape = rng.choice(["({}, {})", "[{}, {}]", "dict(a={}, b={})", "{{'p': {}, 'q': {}}}", "pair({}, {})", "pair(a={}, b={})"])
+        text = f"def pair(a, b): return (a, b)\n\ndef build(ds):\n{ind}{alias} = ds\n{ind}return {shape.format(c1, c2)}{comment}\n"
+        return text, ("ambiguous" if (o2 == op1 and w2 == v1) else "supported")
+    if r < 0.975:
+        # the passed lambda is not written directly as the argument and is told apart from its neighbour by its
+        # argument names: right or raise
+        b1, b2 = "x + 100", "y + 200"
+        kind = rng.choice(["conditional", "helper", "helper-chain"])
+        if kind == "conditional":
+            text = f"def build(ds, flag=False):\n{ind}return ds.Select((lambda x: {b1}) if flag else (lambda y: {b2}))\n"
+        elif kind == "helper":
+            text = f"def passthru(f): return f\n\ndef build(ds):\n{ind}return ds.Select(lambda x: {b1}).Select(passthru(lambda y: {b2}))\n"
+        else:
+            text = f"def passthru(f): return f\n\ndef build(ds):\n{ind}return ds.Where(lambda x: x > 0).Where(passthru(lambda y: y > 5))\n"
         return text, "any"
     # the known mis-pick family: the passed lambda is not written directly as the argument
     kind = rng.choice(["conditional", "tuple"])
